@@ -46,7 +46,11 @@ static int32_t feed(struct jls_chunk_header_s * hdr, uint8_t * payload, uint32_t
         hdr->item_prev = 0;
         hdr->tag = (n_reads - 1 < 4 && seq_tag[n_reads - 1]) ? seq_tag[n_reads - 1] : want_tag;
         hdr->rsv0_u8 = 0;
+#if ENTRY == 9
+        hdr->chunk_meta = (uint16_t) ((1 << 12) | ((pos >= 16384) ? 2 : 1));
+#else
         hdr->chunk_meta = want_meta;
+#endif
         hdr->payload_length = feed_len;
         hdr->payload_prev_length = 0;
         hdr->crc32 = 0;
@@ -62,7 +66,7 @@ static int32_t feed(struct jls_chunk_header_s * hdr, uint8_t * payload, uint32_t
         ph.timestamp = 1000;
         memcpy(payload, &ph, 16);
         if (hdr && hdr->tag == JLS_TAG_TRACK_FSR_INDEX) {
-            uint64_t e0 = 12288, e1 = 12288 + 256;      /* stored (not omitted) blocks */
+            uint64_t e0 = 12288 + ((pos >= 16384) ? 16384 : 0), e1 = e0 + 256;      /* stored (not omitted) blocks; distinct per signal */
             memcpy(payload + 16, &e0, 8);
             memcpy(payload + 24, &e1, 8);
         }
@@ -147,6 +151,36 @@ void harness(void) {
     want_tag = JLS_TAG_SOURCE_DEF; want_meta = 0; chain_left = 1; feed_len = 40;
     rc = jls_core_scan_sources(&core);
     if (rc == JLS_ERROR_EMPTY) { rc = fault_hit ? rc : 0; }     /* a malformed (too short) definition payload is not the subject here */
+#elif ENTRY == 9     /* C01-O3: the level-1 cache is keyed by signal */
+    {
+        struct jls_core_signal_s * s2 = &core.signal_info[2];
+        *s2 = *s;
+        s2->signal_def.signal_id = 2;
+        static struct jls_core_fsr_s fsr2;
+        fsr2 = fsr_obj; fsr2.parent = s2;
+        s2->track_fsr = &fsr2;
+        for (unsigned t = 0; t < 4; ++t) { s2->tracks[t].parent = s2; }
+        s->tracks[JLS_TRACK_TYPE_FSR].head_offsets[1] = 8192;
+        s2->tracks[JLS_TRACK_TYPE_FSR].head_offsets[1] = 16384;
+        want_tag = JLS_TAG_TRACK_FSR_INDEX; feed_entry_bits = 64;
+        seq_tag[0] = JLS_TAG_TRACK_FSR_INDEX; seq_bits[0] = 64; seq_entries[0] = 2;
+        seq_tag[1] = JLS_TAG_TRACK_FSR_SUMMARY; seq_bits[1] = 128; seq_entries[1] = 2;
+        seq_tag[2] = JLS_TAG_TRACK_FSR_INDEX; seq_bits[2] = 64; seq_entries[2] = 2;
+        seq_tag[3] = JLS_TAG_TRACK_FSR_SUMMARY; seq_bits[3] = 128; seq_entries[3] = 2;
+        fault_at = 0xffffffffu;
+        SYM_U32(smp1);
+        SYM_U32(smp2);
+        ASSUME(smp1 < 32 && smp2 < 32);        /* both inside the range covered by the cached index chunk */
+        rc = jls_core_rd_fsr_level1(&core, 1, 1000 + smp1);
+        CHECK(rc == 0 && n_reads == 2 && core.rd_index_chunk.hdr.chunk_meta == ((1 << 12) | 1), "first read loads signal 1's level-1 index");
+        rc = jls_core_rd_fsr_level1(&core, 2, 1000 + smp2);
+        CHECK(rc == 0, "read on the other signal succeeds");
+        CHECK(core.rd_index_chunk.hdr.chunk_meta == ((1 << 12) | 2), "after a read on signal 2 the cached level-1 index belongs to signal 2");
+        struct jls_fsr_index_s * ix = (struct jls_fsr_index_s *) core.rd_index->start;
+        CHECK(ix->offsets[0] == 12288 + 16384, "the cached index entries are those of signal 2 (a read returns signal 2's blocks)");
+        rc = jls_core_rd_fsr_level1(&core, 2, 1000 + smp1);
+        CHECK(rc == 0 && n_reads == 4, "a second read on the same signal inside the cached range reuses the cache");
+    }
 #else
 #error "ENTRY"
 #endif
